@@ -271,7 +271,9 @@ pub fn c09_q_set_nonce_and_rekey() {
     let initiator: bool = kani::any();
     let n_i: u64 = kani::any();
     let n_r: u64 = kani::any();
-    let mut ts = stateful(initiator, false, n_i, n_r);
+    // one-way sessions included: the explicit receiving-nonce setting must never reach the sending counter
+    let oneway: bool = kani::any();
+    let mut ts = stateful(initiator, oneway, n_i, n_r);
     let (n_send, n_recv) = if initiator { (n_i, n_r) } else { (n_r, n_i) };
     let x: u64 = kani::any();
     let which: u8 = kani::any();
